@@ -701,10 +701,17 @@ impl Prop for C03 {
                         break 'outer;
                     }
                 };
-                let f = cmp_exact(obs, &m, "").or_else(|| match parse_blocks(&so.renders[0]) {
-                    Ok(b) => cmp_struct_set(obs, &b),
-                    Err(e) => Some(("rendering_unparseable".into(), e)),
-                });
+                let f = cmp_exact(obs, &m, "")
+                    .or_else(|| match parse_blocks(&so.renders[0]) {
+                        Ok(b) => cmp_struct_set(obs, &b),
+                        Err(e) => Some(("rendering_unparseable".into(), e)),
+                    })
+                    // the same structs and fields (order aside) must come out under the sort-by-name option
+                    .or_else(|| match so.renders.get(1).map(|r| parse_blocks(r)) {
+                        Some(Ok(b)) => cmp_struct_set(obs, &b).map(|(c, d)| (format!("{c}:sorted_by_name"), d)),
+                        Some(Err(e)) => Some(("rendering_unparseable".into(), e)),
+                        None => None,
+                    });
                 if let Some((class, detail)) = f {
                     violation = Some(Violation { class, detail: format!("replica {} ({ri}) after step {si}: {detail}", r.role) });
                     break 'outer;
